@@ -1,5 +1,5 @@
 (* C18Hold.v -- C18 case record and verified-oracle judgement (no generated tables). *)
-From LV Require Import Base Inventory InventoryFacts.
+From LV Require Import Base Toml Serde Inventory InventoryFacts InventoryToml.
 
 Record query := mkQ { q_os : os; q_arch : arch; q_req : req;
                       q_partial : option nat; q_total : option nat }.   (* observed indices *)
@@ -11,10 +11,33 @@ Inductive cks_obs :=
 Inductive case :=
 | CResolve (arts : list artifact) (qs : list query)
 | CChecksum (s : bytes) (o : cks_obs)
-| CToml (n_arts : N) (parse_ok rt_eq : bool).
+| CToml (arts : list tart) (tree : option tv) (parse_ok rt_eq : bool).
+    (* arts: the inventory handed to Display; tree: the rendered text as an independent TOML reader
+       (Python tomllib) sees it, None = not valid TOML; parse_ok / rt_eq: FromStr succeeded / gave
+       equal artifacts *)
 
 Definition spec_sha256_name : bytes := [115; 104; 97; 50; 53; 54].   (* "sha256" *)
 Definition spec_sha256_len : N := 32.
+
+(* the TOML stream instantiates the version with a string ("x.y.0", semver::Version) and the
+   metadata with Option<String>; the checksum validator is Checksum<Sha256>::from_str *)
+Definition toml_V : sty := TyString.
+Definition toml_M : sty := TyOption TyString.
+Definition toml_vf (i : nat) (s : bytes) : bool :=
+  if Nat.eqb i checksum_validator
+  then match parse_checksum (beq spec_sha256_name) (N.eqb spec_sha256_len) s with Ok _ => true | Err _ => false end
+  else true.
+
+Definition tart_eqb (a b : tart) : bool :=
+  sval_eqb (ta_ver a) (ta_ver b) && os_eqb (ta_os a) (ta_os b) && arch_eqb (ta_arch a) (ta_arch b) &&
+  beq (ta_url a) (ta_url b) && beq (fst (ta_ck a)) (fst (ta_ck b)) && beq (snd (ta_ck a)) (snd (ta_ck b)) &&
+  sval_eqb (ta_meta a) (ta_meta b).
+Fixpoint tarts_eqb (x y : list tart) : bool :=
+  match x, y with
+  | [], [] => true
+  | a :: x', b :: y' => tart_eqb a b && tarts_eqb x' y'
+  | _, _ => false
+  end.
 
 Definition query_holds (arts : list artifact) (q : query) : bool :=
   let sel := art_sel (q_os q) (q_arch q) (q_req q) in
@@ -32,7 +55,23 @@ Definition holds (c : case) : bool :=
       | Err _, CkErr _ => true
       | _, _ => false
       end
-  | CToml _ p r => p && r
+  | CToml arts tree p r => p && r      (* the property: parsing the rendered text gives equal artifacts *)
+  end.
+
+(* the rendered text, read by an independent TOML reader and decoded with the SPECIFIED inventory
+   schema, is exactly the inventory (used by the correspondence judgement: the property itself
+   only asks for the round trip, not for particular key names) *)
+Definition toml_reads_back (arts : list tart) (tree : option tv) : bool :=
+  match tree with
+  | Some t =>
+      match decode toml_vf false (spec_Inventory toml_V toml_M) t with
+      | Some x => match inv_of_sval (beq spec_sha256_name) (N.eqb spec_sha256_len) x with
+                  | Some back => tarts_eqb back arts
+                  | None => false
+                  end
+      | None => false
+      end
+  | None => false
   end.
 
 Definition branch_of (c : case) : N :=
@@ -40,5 +79,5 @@ Definition branch_of (c : case) : N :=
   | CResolve arts qs => N.of_nat (length (filter (fun q => match q_partial q with Some _ => true | None => false end) qs))
   | CChecksum s o => match o with CkOk _ _ _ _ => 100 | CkErr MissingPrefix => 101 | CkErr IncompatiblePrefix => 102
                                   | CkErr InvalidValue => 103 | CkErr InvalidLength => 104 end
-  | CToml _ _ _ => 200
+  | CToml arts _ _ _ => 200 + N.of_nat (length arts)
   end.
